@@ -159,10 +159,15 @@ func (l *leaderEnv) close() {
 // start: NewLeaderController + NewTerm + BecomeLeader; the error of BecomeLeader is returned
 func (l *leaderEnv) start(term int64) error {
 	var err error
+	l.leading = false
 	l.lc, err = server.NewLeaderController(c13SrvConfig, c13Ns, l.shard, c13Rpc{}, l.walf, l.kvf)
-	hx.Must(err)
-	_, err = l.lc.NewTerm(&proto.NewTermRequest{Namespace: c13Ns, Shard: l.shard, Term: term})
-	hx.Must(err)
+	if err != nil {
+		l.lc = nil
+		return err // the stored state cannot even be opened (only possible if a request damaged the internal keys)
+	}
+	if _, err = l.lc.NewTerm(&proto.NewTermRequest{Namespace: c13Ns, Shard: l.shard, Term: term}); err != nil {
+		return err
+	}
 	ctx, cancel := context.WithTimeout(context.Background(), c13Step)
 	defer cancel()
 	_, err = l.lc.BecomeLeader(ctx, &proto.BecomeLeaderRequest{Namespace: c13Ns, Shard: l.shard, Term: term, ReplicationFactor: 1,
@@ -228,7 +233,9 @@ func (l *leaderEnv) write(w *wreq) string {
 }
 
 func (l *leaderEnv) restart(term int64) string {
-	hx.Must(l.lc.Close())
+	if l.lc != nil {
+		_ = l.lc.Close()
+	}
 	l.lc = nil
 	err := l.start(term)
 	if err != nil {
@@ -262,7 +269,9 @@ func (l *leaderEnv) readLog() []*proto.LogEntry {
 
 // follower: a fresh follower controller gets the whole log; does its apply loop reach the end?
 func (l *leaderEnv) follower(term int64) string {
-	hx.Must(l.lc.Close())
+	if l.lc != nil {
+		_ = l.lc.Close()
+	}
 	l.lc = nil
 	l.leading = false
 	entries := l.readLog()
